@@ -104,6 +104,29 @@ func verifC18Guard(fn func()) (panicked string, finished bool) {
 	}
 }
 
+// verifC18WaitProgress waits until wait returns. The workers tick beats while they make
+// progress; the wait is given up (false) only when beats has not moved for the stop
+// timeout, so the limit does not depend on the number of iterations or on the load.
+func verifC18WaitProgress(wait func(), beats *atomic.Int64) bool {
+	done := make(chan struct{})
+	go func() { wait(); close(done) }()
+	ticker := time.NewTicker(20 * time.Millisecond)
+	defer ticker.Stop()
+	last, lastChange := beats.Load(), time.Now()
+	for {
+		select {
+		case <-done:
+			return true
+		case <-ticker.C:
+			if b := beats.Load(); b != last {
+				last, lastChange = b, time.Now()
+			} else if time.Since(lastChange) > 2*verifC18StopTimeout {
+				return false
+			}
+		}
+	}
+}
+
 // verifC18Tree is a goroutine-safe fake of the B-tree behind the smart rebalancer.
 type verifC18Tree struct {
 	mu          sync.Mutex
@@ -251,6 +274,7 @@ func TestVerifC18_SmartLifecycle(t *testing.T) {
 
 		var phase atomic.Int32
 		var stop atomic.Bool
+		var beats, lifeBeats atomic.Int64
 		failures := make(chan string, 64)
 		report := func(msg string) {
 			select {
@@ -278,6 +302,7 @@ func TestVerifC18_SmartLifecycle(t *testing.T) {
 				for i := 0; !stop.Load(); i++ {
 					// An error is legal here: recording is refused between Stop and the next Start.
 					_ = sr.RecordOperation(verifC18Op(int(phase.Load()), r))
+					beats.Add(1)
 					if i%8 == 0 {
 						runtime.Gosched()
 					}
@@ -288,6 +313,7 @@ func TestVerifC18_SmartLifecycle(t *testing.T) {
 			spawn(&workers, "evaluator", func(*rand.Rand) {
 				for i := 0; !stop.Load(); i++ {
 					d, err := sr.Evaluate()
+					beats.Add(1)
 					if err != nil {
 						report(fmt.Sprintf("[result-diff] %s seed=%d round=%d: Evaluate: %v", name, seed, round, err))
 						return
@@ -304,6 +330,7 @@ func TestVerifC18_SmartLifecycle(t *testing.T) {
 			lastEvals := 0
 			for i := 0; !stop.Load(); i++ {
 				st := sr.GetStats()
+				beats.Add(1)
 				if st.TotalEvaluations < lastEvals || !verifC18ValidMode(st.CurrentMode) {
 					report(fmt.Sprintf("[result-diff] %s seed=%d round=%d: GetStats evaluations %d -> %d mode %q", name, seed, round, lastEvals, st.TotalEvaluations, st.CurrentMode))
 					return
@@ -347,6 +374,7 @@ func TestVerifC18_SmartLifecycle(t *testing.T) {
 		// Alternating Start/Stop; also drives the workload phases.
 		spawn(&lifecycles, "lifecycle-1", func(r *rand.Rand) {
 			for i := 0; i < nLifecycle; i++ {
+				lifeBeats.Add(1)
 				p := i % 4
 				tree.fileSize.Store(verifC18PhaseFileSize(p))
 				phase.Store(int32(p))
@@ -363,6 +391,7 @@ func TestVerifC18_SmartLifecycle(t *testing.T) {
 		// Random Start/Stop, so that a Start overlaps a Stop that is still waiting.
 		spawn(&lifecycles, "lifecycle-2", func(r *rand.Rand) {
 			for i := 0; i < nLifecycle; i++ {
+				lifeBeats.Add(1)
 				if r.Intn(2) == 0 {
 					if err := sr.Start(ctx); err != nil && err != ErrAlreadyStarted {
 						report(fmt.Sprintf("[result-diff] %s seed=%d round=%d: Start: %v", name, seed, round, err))
@@ -375,12 +404,13 @@ func TestVerifC18_SmartLifecycle(t *testing.T) {
 			}
 		})
 
-		_, finished := verifC18Guard(lifecycles.Wait)
+		// Only the lifecycle goroutines tick lifeBeats: it moves when Start/Stop calls return.
+		finished := verifC18WaitProgress(lifecycles.Wait, &lifeBeats)
 		stop.Store(true)
 		if !finished {
-			t.Fatalf("[stop-timeout] %s seed=%d round=%d: lifecycle goroutines did not finish (a Start or Stop call hangs)", name, seed, round)
+			t.Fatalf("[stop-timeout] %s seed=%d round=%d: lifecycle goroutines made no progress for %v (a Start or Stop call hangs)", name, seed, round, 2*verifC18StopTimeout)
 		}
-		if _, finished := verifC18Guard(workers.Wait); !finished {
+		if !verifC18WaitProgress(workers.Wait, &beats) {
 			t.Fatalf("[stop-timeout] %s seed=%d round=%d: worker goroutines did not finish (RecordOperation/Evaluate/GetStats/GetMetrics hangs)", name, seed, round)
 		}
 
@@ -429,6 +459,7 @@ func TestVerifC18_MetricsDetectorSelector(t *testing.T) {
 	n := verifC18Iters() * 25
 	rng := rand.New(rand.NewSource(seed))
 	before := runtime.NumGoroutine()
+	var beats atomic.Int64 // ticked by every worker iteration, see verifC18WaitProgress
 
 	failures := make(chan string, 64)
 	report := func(msg string) {
@@ -452,8 +483,8 @@ func TestVerifC18_MetricsDetectorSelector(t *testing.T) {
 				fn(g, rand.New(rand.NewSource(workerSeed)))
 			}(g)
 		}
-		if _, finished := verifC18Guard(wg.Wait); !finished {
-			t.Fatalf("[stop-timeout] %s seed=%d: %s goroutines did not finish within %v", name, seed, what, verifC18StopTimeout)
+		if !verifC18WaitProgress(wg.Wait, &beats) {
+			t.Fatalf("[stop-timeout] %s seed=%d: %s goroutines made no progress for %v", name, seed, what, 2*verifC18StopTimeout)
 		}
 	}
 	modes := []Mode{ModeNone, ModeLazy, ModeIncremental}
@@ -464,6 +495,7 @@ func TestVerifC18_MetricsDetectorSelector(t *testing.T) {
 	mc := NewMetricsCollector()
 	run("metrics-mixed", func(g int, r *rand.Rand) {
 		for i := 0; i < n; i++ {
+			beats.Add(1)
 			switch r.Intn(9) {
 			case 0:
 				mc.RecordEvaluation(Decision{Mode: modes[r.Intn(3)], Confidence: r.Float64()}, time.Duration(1+r.Intn(1000)))
@@ -501,6 +533,7 @@ func TestVerifC18_MetricsDetectorSelector(t *testing.T) {
 	mc.Reset()
 	run("metrics-counting", func(g int, r *rand.Rand) {
 		for i := 0; i < n; i++ {
+			beats.Add(1)
 			mc.RecordOperation(OperationType(i % 3))
 			mc.RecordEvaluation(Decision{Mode: modes[i%3], Confidence: 0.5}, time.Microsecond)
 			mc.RecordModeChange(ModeNone, ModeLazy)
@@ -542,6 +575,7 @@ func TestVerifC18_MetricsDetectorSelector(t *testing.T) {
 	ctx := context.Background()
 	run("detector", func(g int, r *rand.Rand) {
 		for i := 0; i < n; i++ {
+			beats.Add(1)
 			switch r.Intn(6) {
 			case 0, 1, 2:
 				if err := det.RecordOperation(ctx, OperationType(r.Intn(3)), sizes[r.Intn(3)]); err != nil {
@@ -605,6 +639,7 @@ func TestVerifC18_MetricsDetectorSelector(t *testing.T) {
 	run("selector-sticky", func(g int, r *rand.Rand) {
 		seen := make(map[Mode]int)
 		for i := 0; i < n; i++ {
+			beats.Add(1)
 			f, wt := randomFeatures(r)
 			d := sticky.SelectConfig(f, wt)
 			if !verifC18ValidMode(d.Mode) || d.Timestamp.IsZero() {
@@ -631,6 +666,7 @@ func TestVerifC18_MetricsDetectorSelector(t *testing.T) {
 	reference := &RuleBasedStrategy{clock: RealClock{}}
 	run("selector-free", func(g int, r *rand.Rand) {
 		for i := 0; i < n; i++ {
+			beats.Add(1)
 			f, wt := randomFeatures(r)
 			d := free.SelectConfig(f, wt)
 			want := reference.Select(f, wt)
